@@ -302,6 +302,20 @@ func countSteps(typ string) []step {
 			setLimit(w, &proxyv1alpha1.RateLimitAcquireResult{FlowControl: "s", Error: e}, false)
 		}, failing: e != "RequestIDTooOld"})
 	}
+	if typ == "tb" {
+		// what the schema's meter has measured is an input of the error path (the fallback bucket is sized by it): the
+		// meter runs on the real clock, so the harness decides the measurement. 6/s is what a stream that is held to
+		// 4/s burst 8 can average over the meter's three one-second buckets ((12+4+4)/3); 12/s is one bucket's peak.
+		for _, r := range []float64{6, 12} {
+			r := r
+			out = append(out, step{name: fmt.Sprintf("the meter has measured %v requests/s", r), do: func(w *world) {
+				round(w)
+				if rw := remoteWrapper(w); rw != nil {
+					remote.VerifSetMeasuredRate(rw, r)
+				}
+			}})
+		}
+	}
 	out = append(out,
 		step{name: "stale acquire answer accept limit=5", do: func(w *world) {
 			setLimit(w, &proxyv1alpha1.RateLimitAcquireResult{FlowControl: "s", Accept: true, Limit: 5}, true)
@@ -655,7 +669,6 @@ func acrossFlaps(c *ev.Check) {
 	}
 }
 
-
 // acrossSteps: requests in flight across EVERY single step of the alphabet, not only readiness flaps: the server
 // grants q, as many requests as are admitted keep running, one step happens (any answer, failure, readiness or shard
 // change, spec edit - and, allocate strategy, an answer whose strategy field differs from the schema's), then as many
@@ -793,6 +806,37 @@ func lowBurstTokenBucket(c *ev.Check) {
 			}
 		}
 		rec()
+	}
+}
+
+// directedSequences: sequences longer than the quick tier's enumeration that once showed a violation (found by the
+// thorough tier) run in every tier.
+func directedSequences(c *ev.Check) {
+	for _, d := range []struct {
+		typ      string
+		strategy proxyv1alpha1.LimitStrategy
+		names    []string
+	}{
+		{"tb", proxyv1alpha1.GlobalCountLimit, []string{"acquire answer accept=true limit=2", "acquire answer accept=true limit=1", "the meter has measured 12 requests/s", "acquire answer error=timeout"}},
+		{"tb", proxyv1alpha1.GlobalCountLimit, []string{"acquire answer accept=true limit=5", "acquire answer accept=true limit=5", "acquire answer error=x", "acquire answer accept=true limit=5"}},
+		{"mif", proxyv1alpha1.GlobalCountLimit, []string{"acquire answer accept=true limit=5", "acquire answer accept=true limit=5", "acquire answer error=timeout", "acquire answer accept=true limit=5"}},
+	} {
+		steps := countSteps(d.typ)
+		var idx []int
+		for _, n := range d.names {
+			found := -1
+			for k, st := range steps {
+				if st.name == n {
+					found = k
+				}
+			}
+			if found < 0 {
+				c.EngineError("directed-sequences: no step named " + n)
+				return
+			}
+			idx = append(idx, found)
+		}
+		run(c, d.typ, d.strategy, steps, idx, false)
 	}
 }
 
@@ -963,6 +1007,7 @@ func main() {
 	tasks = append(tasks, ev.Task{Name: "boundary-configs", Run: func() { boundaryConfigs(c) }})
 	tasks = append(tasks, ev.Task{Name: "low-burst-token-bucket", Run: func() { lowBurstTokenBucket(c) }})
 	tasks = append(tasks, ev.Task{Name: "in-flight-across-steps", Run: func() { acrossSteps(c) }})
+	tasks = append(tasks, ev.Task{Name: "directed-sequences", Run: func() { directedSequences(c) }})
 	c.RunTasks(tasks)
 	c.Finish(map[string]interface{}{
 		"evaluations":         c.Counter("probes") + c.Counter("schedules"),
